@@ -319,6 +319,29 @@ def unit_conversions(ctx):
             c = float(StandardMetrics.signal_to_noise_ratio(x, n))
             ctx.check(abs(c - exp) <= 2e-3, "C07.d_helper_snr", cell, {"complex": cplx, "ps": ps, "pn": pn}, c, exp, "StandardMetrics.signal_to_noise_ratio differs from 10log10(Px/Pn)", "c07:replay_conversions")
             ctx.nontrivial("tools", cplx, ps, pn)
+    # batched inputs (B, ...): the metric returns one SNR per batch element; elements (and rows inside an element) get different powers,
+    # so that an element's value cannot be right by averaging over the wrong axes
+    for cplx in (False, True):
+        for shape in ((4, 600), (3, 4, 250), (2, 3, 8, 16), (5, 1, 300)):
+            x = gen_signal(shape, 1.0, cplx, rng).numpy()
+            n = gen_signal(shape, 1.0, cplx, rng).numpy()
+            B = shape[0]
+            gx = 10.0 ** rng.uniform(-1.5, 1.5, size=(B,) + (1,) * (len(shape) - 1))
+            gn = 10.0 ** rng.uniform(-1.5, 1.5, size=(B,) + (1,) * (len(shape) - 1))
+            rowg = 10.0 ** rng.uniform(-1, 1, size=(1, shape[1]) + (1,) * (len(shape) - 2)) if len(shape) > 2 else 1.0
+            x = (x * gx * rowg).astype(x.dtype)
+            n = (n * gn).astype(n.dtype)
+            xt, nt = torch.from_numpy(x), torch.from_numpy(n)
+            yt = xt + nt
+            nn = (yt - xt).numpy()
+            exp = np.array([10 * np.log10(np.mean(np.abs(x[i].astype(np.complex128)) ** 2) / np.mean(np.abs(nn[i].astype(np.complex128)) ** 2)) for i in range(B)])
+            bcell = {**cell, "layout": f"{len(shape)}d_batched"}
+            ok, got = ctx.call(lambda: SignalToNoiseRatio()(xt, yt).numpy().astype(np.float64).reshape(-1), "C07.d_snr_metric_raises", bcell, {"complex": cplx, "shape": list(shape)}, checker="c07:replay_conversions")
+            if ok:
+                ctx.ev()
+                ctx.check(got.shape == exp.shape and bool(np.all(np.abs(got - exp) <= 5e-3)), "C07.d_snr_metric", bcell, {"complex": cplx, "shape": list(shape)}, got.tolist(), exp.tolist(),
+                          "SignalToNoiseRatio on a batched input is not 10log10(Px/Pn) of each batch element", "c07:replay_conversions")
+                ctx.nontrivial("tools_batched", cplx, shape)
     ctx.sample({"grid_points": 2001, "tools": ["calculate_snr", "SignalToNoiseRatio", "StandardMetrics.signal_to_noise_ratio"]})
 
 
